@@ -169,6 +169,10 @@ def run_pool(engine, prop, tier, seed, total, budget_s, workers, block=1500):
                     res['samples'].append(s)
         elif line.startswith('BYE'):
             w.done_clean = True
+        elif line.startswith('RETIRE '):
+            # the worker abandoned a run asynchronously (CPU budget), reported it, and leaves; the rest of its block is re-queued
+            w.done_clean = True
+            w.retire_next = int(line.split()[1])
         elif line.startswith('TERMINATE'):
             w.terminated = True
 
@@ -209,6 +213,9 @@ def run_pool(engine, prop, tier, seed, total, budget_s, workers, block=1500):
                 cleanup_scratch(w.p.pid)
                 if w.done_clean:
                     w.stderr_text()
+                    nxt = getattr(w, 'retire_next', None)
+                    if nxt is not None and w.start + w.count - nxt > 0:
+                        pending.append((nxt, w.start + w.count - nxt))
                 if not w.done_clean:
                     # died inside scenario w.cur
                     idx = w.cur if w.cur is not None else w.start
@@ -307,7 +314,16 @@ class Server:
             txt = buf.decode('utf-8', 'replace')
             for l in txt.split('\n'):
                 if l.startswith('RES '):
-                    return json.loads(l[4:])
+                    res = json.loads(l[4:])
+                    if res.get('retire'):
+                        # the serve process abandoned this run asynchronously (CPU budget) and exits: start afresh next time
+                        try:
+                            self.p.wait(timeout=10)
+                        except subprocess.TimeoutExpired:
+                            self.p.kill(); self.p.wait()
+                        san_log(self.p.pid); cleanup_scratch(self.p.pid)
+                        self.p = None
+                    return res
             # no RES: crashed or hung.  EOF on the pipe can be seen before the dying process is reapable
             # (the sanitizer is still writing its report): give it a moment before calling it a hang.
             rc = self.p.poll()
@@ -463,7 +479,12 @@ def emit_scenario(engine, prop, tier, seed, idx):
 
 
 def fresh_replay(engine, path):
-    r = subprocess.run([os.path.join(BUILD, engine), 'replay', path], stdout=subprocess.PIPE, stderr=subprocess.PIPE, text=True, timeout=HANG_S * 2)
+    try:
+        r = subprocess.run([os.path.join(BUILD, engine), 'replay', path], stdout=subprocess.PIPE, stderr=subprocess.PIPE, text=True, timeout=HANG_S * 2)
+    except subprocess.TimeoutExpired as e:
+        class _R: pass
+        r = _R(); r.returncode = -9; r.stdout = ''; r.stderr = ''
+        return dict(verdict='HANG', sig='', fp='', detail='replay did not finish within %.0f s' % (HANG_S * 2)), r
     for l in r.stdout.split('\n'):
         if l.startswith('REPLAY '):
             return json.loads(l[7:]), r
